@@ -88,7 +88,11 @@ def clause_b(ctx, P):
         rb = rc[0][0]
         # unavoidable after the record loop (only the unknown-interface early return precedes the loop)
         exits_ = {s for x in loops[hh] for s in h.succs(x) if s not in loops[hh]}
-        ok = all(not any(h.term(r)["k"] == "return" for r in h.reachable(s, removed_blocks=[rb])) for s in exits_)
+        # (nothing to resolve for when nobody browses, or when nothing changed: an `is_empty()` test on service_queriers or on a
+        # local collection may go around the call — the same allowance as C04m)
+        skip = guard_edges(P, h, lambda atom, outcome, bb: atom[0] == "call" and method(strip_generics(atom[1])) == "is_empty" and outcome is True and
+                           (not any(x[0] == "field" and (x[3] or "").endswith("Zeroconf") for x in walk(atom)) or expr_mentions_field(atom, "service_queriers", "Zeroconf")))
+        ok = all(not any(h.term(r)["k"] == "return" for r in h.reachable(s, removed_blocks=[rb], removed_edges=skip)) for s in exits_)
         ctx.ob("C04b.resolve-after-loop", h.name, ok, h.loc(rb), "every path leaving the record loop reaches resolve_updated_instances")
         arg = htr.operand(rc[0][1]["args"][1], endpos(h, rb))
         news = [x for x in walk(arg) if x[0] == "call" and name_matches(strip_generics(x[1]), "HashSet::new")]
